@@ -114,6 +114,10 @@ def parse_qual(cx, q):
     elif q.endswith('&'):
         q, ref = q[:-1], True
     q = _strip_cv(q)
+    if q.endswith(']') and '[' in q:
+        # T[N]: a member array of a raw (packed) struct
+        elem, _ = parse_qual(cx, q[:q.rindex('[')])
+        return CT('arr', elem=elem, name=q), ref
     if q.endswith('*'):
         elem, _ = parse_qual(cx, q[:-1])
         return CT('ptr', elem=elem), ref
@@ -194,6 +198,7 @@ class State(object):
         self.trace = []
         self.log = []         # what has been inserted into output streams: [(stream path, kind, payload, width, fill, flags)]
         self.calls = []       # qualified names of the functions called directly by the function under verification
+        self.frames = []      # frame facts of callees: (memory after, memory before, lo, hi): bytes outside [lo, hi) kept
 
     def copy(self):
         s = State()
@@ -205,6 +210,7 @@ class State(object):
         s.elems = dict(self.elems)
         s.log = list(self.log)
         s.calls = list(self.calls)
+        s.frames = list(self.frames)
         s.ret = self.ret
         s.trace = list(self.trace)
         return s
@@ -240,6 +246,20 @@ class Contract(object):
         self.modifies, self.setup, self.loops = tuple(modifies), setup, loops or {}
         self.havoc_objs = tuple(havoc_objs)
         self.props, self.verify, self.params = tuple(props), verify, params
+
+
+class FrameFact(object):
+    """postcondition 'every byte outside [lo, hi) is unchanged'.  Proved as a quantified formula when the function that
+    promises it is verified; at call sites it is not assumed wholesale but instantiated at the addresses read later."""
+
+    def __init__(self, mem0, mem1, lo, hi):
+        self.mem0, self.mem1, self.lo, self.hi = mem0, mem1, lo, hi
+
+    def formula(self):
+        x = z3.Const('fa', BV64)
+        return z3.ForAll([x], z3.Implies(z3.Or(z3.ULT(x, self.lo), z3.UGE(x, self.hi)),
+                                         z3.Select(self.mem1, x) == z3.Select(self.mem0, x)),
+                         patterns=[z3.Select(self.mem1, x)])
 
 
 class LoopSpec(object):
@@ -326,6 +346,12 @@ class Cx(object):
         if 'unnamed enum' in q:
             # unnamed enums in the headers hold sizes that may be -1
             r = True
+        if r is None and tail is not None:
+            last = tail.split('::')[-1]
+            # enums declared outside the dumped namespace (the raw header's global types): named by the schema, or the
+            # `_discriminator` enum of a raw union
+            if last == '_discriminator' or last in getattr(self, 'extra_enums', ()):
+                r = False
         self._enum_cache[q] = r
         return r
 
@@ -511,6 +537,11 @@ class Cx(object):
         if aligned_check and n > 1:
             self.oblige(st, 'read.aligned%d' % n, (addr & z3.BitVecVal(n - 1, 64)) == 0, 'ub')
         bs = [z3.Select(st.mem, addr + z3.BitVecVal(i, 64)) for i in range(n)]
+        for fr in st.frames:
+            # ground instances of the callees' frame conditions at the bytes read now
+            for i in range(n):
+                a = addr + z3.BitVecVal(i, 64)
+                st.assume(z3.Implies(z3.Or(z3.ULT(a, fr.lo), z3.UGE(a, fr.hi)), z3.Select(fr.mem1, a) == z3.Select(fr.mem0, a)))
         t = bs[0] if n == 1 else z3.Concat(*reversed(bs))      # little-endian host
         return CInt(t, ct.bits, ct.signed)
 
@@ -641,8 +672,16 @@ class Cx(object):
         base_node = self.kids(node)[0]
         ct = self.ntype(node)
         for s, b in self.eval(st, base_node):
+            if isinstance(b, LVal) and b.kind == 'rawobj':
+                out.append((s, self.raw_member(s, b.addr, b.ct, node, ct)))
+                continue
             if isinstance(b, LVal):
                 b = self.load(s, b) if b.ct.kind != 'obj' else CObj(self._lv_path(b, s), b.ct)
+            if node.get('isArrow') and isinstance(b, CPtr) and b.arr is None and not getattr(b, 'obj_path', None) \
+                    and b.elem.kind == 'obj' and self.raw_offsets is not None:
+                # pointer into byte memory typed as a raw (packed) struct: payload->field
+                out.append((s, self.raw_member(s, b.addr, b.elem, node, ct)))
+                continue
             if node.get('isArrow'):
                 if isinstance(b, CPtr) and b.arr is not None:
                     b = CObj(self.elem_path(s, b.base_path, b.arr[1]), b.elem)
@@ -658,6 +697,28 @@ class Cx(object):
             else:
                 out.append((s, LVal('field', ct, path=b.path, name=name)))
         return out
+
+    raw_offsets = None      # {(record name, field name): byte offset} measured by g++ for the raw (packed) structs
+
+    def raw_member(self, st, addr, rec_ct, node, field_ct):
+        """lvalue of `field` of the raw struct at byte address addr (layout: offsets measured by g++, listed as such)"""
+        rec = _strip_cv(rec_ct.name or '')
+        name = node.get('name')
+        off = self.raw_offsets.get((rec, name))
+        if off is None and ('anonymous' in rec or 'unnamed' in rec):
+            off = 0             # an arm inside the anonymous union of a raw union struct: all arms start the union
+        if off is None and not name:
+            off = self.raw_offsets.get((rec, ''))       # the anonymous union member itself
+        if off is None:
+            raise OutOfReach('offsetof(%s, %s) not in the measured layout table' % (rec, name))
+        a = addr + z3.BitVecVal(off, 64)
+        if field_ct.kind == 'int':
+            return LVal('mem', field_ct, addr=a, aligned_check=False)
+        if field_ct.kind == 'arr':
+            return LVal('rawarr', field_ct, addr=a)
+        if field_ct.kind == 'obj':
+            return LVal('rawobj', field_ct, addr=a)
+        raise OutOfReach('raw member of type %r' % field_ct)
 
     def _lv_path(self, lv, st):
         if lv.kind == 'var':
@@ -692,7 +753,13 @@ class Cx(object):
         if ck == 'ArrayToPointerDecay':
             if sub.get('kind') == 'StringLiteral':
                 return self.eval(st, sub)
-            raise OutOfReach('array decay')
+            out = []
+            for s, v in self.eval(st, sub):
+                if isinstance(v, LVal) and v.kind == 'rawarr':
+                    out.append((s, CPtr(v.addr, v.ct.elem)))        # member array of a raw struct: its first element
+                else:
+                    raise OutOfReach('array decay')
+            return out
         out = []
         if ck == 'LValueBitCast':
             for s, v in self.eval(st, sub):
@@ -752,7 +819,9 @@ class Cx(object):
             for s, lv in self.eval(st, sub):
                 if not isinstance(lv, LVal):
                     raise OutOfReach('& of non-lvalue')
-                if lv.ct.kind == 'obj':
+                if lv.kind in ('rawobj', 'rawarr'):
+                    out.append((s, CPtr(lv.addr, lv.ct)))
+                elif lv.ct.kind == 'obj':
                     p = CPtr(fresh('addrof', BV64), lv.ct)
                     p.obj_path = self._lv_path(lv, s)
                     out.append((s, p))
@@ -789,6 +858,8 @@ class Cx(object):
             return LVal('elem', p.elem, arr=p.arr[0], idx=p.arr[1], base_path=p.base_path, cap=p.cap)
         if p.elem.kind == 'int':
             return LVal('mem', p.elem, addr=p.addr, aligned_check=True)
+        if p.elem.kind == 'obj' and self.raw_offsets is not None:
+            return LVal('rawobj', p.elem, addr=p.addr)
         raise OutOfReach('dereference of %r pointer without provenance' % p.elem)
 
     def ptr_add(self, st, p, n):
@@ -1425,7 +1496,10 @@ class Cx(object):
             if this is not None:
                 a1['this'] = this
             for label, f in c.ensures(self, s0, a0, s, a1, ret):
-                s.assume(f)
+                if isinstance(f, FrameFact):
+                    s.frames.append(f)      # used through ground instances at the addresses read later (read_mem)
+                else:
+                    s.assume(f)
             if c.effect:
                 c.effect(self, s0, a0, s, a1, ret)
             out.append((s, ret))
@@ -1532,7 +1606,10 @@ class Cx(object):
             nxt = []
             for s in states:
                 env = self.fn_stack[-1]['env']
-                key = '%s!%d' % (d.get('name'), next(_counter))
+                # one storage key per declaration and frame: the frame's environment is shared by all paths through the
+                # function, so every path must find the variable under the same key
+                keys = self.fn_stack[-1].setdefault('keys', {})
+                key = keys.setdefault(d['id'], '%s!%d' % (d.get('name'), next(_counter)))
                 if ref:
                     for s2, v in self.eval(s, init[0]):
                         env[d['id']] = v
@@ -1698,6 +1775,7 @@ class Cx(object):
         for label, f in spec.invariant(self, s, names(s)):
             s.assume(f)
         out = []
+        v_head = spec.variant(self, s, names(s)) if spec.variant else None      # at the loop head, before the condition
         for s1, cv in self.rvalue(s, cond):
             t = self.truth(cv)
             s_in, s_out = s1.copy(), s1.copy()
@@ -1716,7 +1794,7 @@ class Cx(object):
                             text, f = item
                             s_in.assume(f)
                             self.assumed.add('axiom (ghost function): ' + text)
-                v0 = spec.variant(self, s_in, names(s_in)) if spec.variant else None
+                v0 = v_head     # `while (n--)`: the condition itself changes n; the variant is measured head to head
                 key = '%s#loop%d.body' % (q, ordinal)
                 self.covers[key] = 'sat'
                 for s2, flow in self.exec_stmt(s_in, body):
@@ -1901,6 +1979,8 @@ def verify_function(cx, fn, contract, timeout_ms=20000):
             if 'this' in env:
                 a1['this'] = env['this']
             for label, f in contract.ensures(cx, s0, a0, s, a1, ret):
+                if isinstance(f, FrameFact):
+                    f = f.formula()
                 cx.oblige(s, 'ensures.%s' % label, f, 'post')
                 s.assume(f)         # assert, then assume: later clauses may rely on earlier ones (each is proved)
         result['covers'].update(cx.covers)
@@ -1978,13 +2058,12 @@ def discharge(ob, timeout_ms):
     if r == z3.unknown:
         # cvc5's exact translation of bit-vectors to integers with mod/div ("int-blasting"): cursor arithmetic with
         # rounding to multiples of 2/4/8 becomes linear integer arithmetic and is usually decided at once
-        c = _cvc5(text, min(6000, timeout_ms), ['--solve-bv-as-int=sum'])
+        # the two cvc5 configurations race (queries mixing byte memory with cursor arithmetic are decided by the default
+        # configuration in ~20 s, pure cursor arithmetic by the integer translation in milliseconds)
+        c, which = _cvc5_race(text, [(['--solve-bv-as-int=sum'], min(25000, timeout_ms), 'cvc5-intblast'),
+                                     ([], min(25000, timeout_ms), 'cvc5')])
         if c == 'unsat':
-            r, ob.backend = z3.unsat, 'cvc5-intblast'
-        if c == 'unknown':
-            c = _cvc5(text, min(10000, timeout_ms))
-            if c == 'unsat':
-                r, ob.backend = z3.unsat, 'cvc5'
+            r, ob.backend = z3.unsat, which
         if r == z3.unknown:
             s.set('timeout', timeout_ms)
             r = s.check()
@@ -2002,6 +2081,44 @@ def discharge(ob, timeout_ms):
     else:
         ob.verdict = 'unknown'
     return ob
+
+
+def _cvc5_race(text, configs):
+    """run several cvc5 configurations on the same query at once; the first definite answer wins"""
+    import os
+    import subprocess
+    import tempfile
+    fd, path = tempfile.mkstemp(suffix='.smt2', prefix='cxxvc-')
+    procs = []
+    try:
+        with os.fdopen(fd, 'w') as f:
+            f.write('(set-logic ALL)\n' + text + '\n(check-sat)\n')
+        for opts, tmo, name in configs:
+            procs.append((subprocess.Popen(['/usr/bin/cvc5', '--lang=smt2', '--tlimit=%d' % tmo] + list(opts) + [path],
+                                           stdout=subprocess.PIPE, stderr=subprocess.DEVNULL), name))
+        deadline = time.time() + max(t for _, t, _ in configs) / 1000.0 + 10
+        answer, who = 'unknown', None
+        pending = list(procs)
+        while pending and time.time() < deadline:
+            for p, name in list(pending):
+                if p.poll() is not None:
+                    pending.remove((p, name))
+                    out = (p.stdout.read() or b'').decode('utf-8', 'replace').strip().splitlines()
+                    a = out[0].strip() if out else 'unknown'
+                    if a in ('sat', 'unsat'):
+                        return a, name
+            time.sleep(0.02)
+        return answer, who
+    except Exception:
+        return 'unknown', None
+    finally:
+        for p, _ in procs:
+            if p.poll() is None:
+                p.kill()
+        try:
+            os.unlink(path)
+        except OSError:
+            pass
 
 
 def _cvc5(text, timeout_ms, options=()):
